@@ -1,0 +1,178 @@
+//go:build verif
+
+/*
+ * Atree - Scalable Arrays and Ordered Maps
+ *
+ * Copyright Flow Foundation
+ *
+ * Licensed under the Apache License, Version 2.0 (the "License");
+ * you may not use this file except in compliance with the License.
+ * You may obtain a copy of the License at
+ *
+ *   http://www.apache.org/licenses/LICENSE-2.0
+ *
+ * Unless required by applicable law or agreed to in writing, software
+ * distributed under the License is distributed on an "AS IS" BASIS,
+ * WITHOUT WARRANTIES OR CONDITIONS OF ANY KIND, either express or implied.
+ * See the License for the specific language governing permissions and
+ * limitations under the License.
+ */
+
+package atree
+
+import "fmt"
+
+// Verification hooks for the slab tree of OrderedMap. This file only exists for the compiler
+// when the build tag "verif" is set. It adds read-only dumps of every cached field of a map's
+// slab tree; it does not change any existing declaration.
+
+// VerifMapTreeDump returns a pre-order dump of every cached field of the map's slab tree:
+//
+//	data slab  [0, index, size, firstKey, next index] ++ E
+//	index slab [1, index, size, firstKey, n, (childIndex, childSize, childFirstKey)*, children...]
+//
+// E is the element structure of the data slab:
+//
+//	hkeyElements    [0, level, n, size, hkeys..., elements...]
+//	singleElements  [1, level, n, size, (keyID, keySize, valueID, valueSize)*]
+//	singleElement   [0, keyID, keySize, valueID, valueSize, size]
+//	inline group    [1, size] ++ elements
+//	external group  [2, slab index, size] ++ elements of its slab
+//
+// elem maps a key or value storable to the harness's (identity, encoded size).
+func VerifMapTreeDump(m *OrderedMap, elem func(Storable) (uint64, uint64)) ([]uint64, error) {
+	var out []uint64
+
+	var encElems func(g *VerifMapElems)
+	var encElem func(e *VerifMapElem)
+	encElems = func(g *VerifMapElems) {
+		if g.IsHkey {
+			out = append(out, 0, uint64(g.Level), uint64(len(g.Elems)), uint64(g.Size))
+			for _, h := range g.Hkeys {
+				out = append(out, uint64(h))
+			}
+			for i := range g.Elems {
+				encElem(&g.Elems[i])
+			}
+			return
+		}
+		out = append(out, 1, uint64(g.Level), uint64(len(g.Elems)), uint64(g.Size))
+		for i := range g.Elems {
+			kid, ksz := elem(g.Elems[i].Key)
+			vid, vsz := elem(g.Elems[i].Value)
+			out = append(out, kid, ksz, vid, vsz)
+		}
+	}
+	encElem = func(e *VerifMapElem) {
+		switch e.Kind {
+		case 0:
+			kid, ksz := elem(e.Key)
+			vid, vsz := elem(e.Value)
+			out = append(out, 0, kid, ksz, vid, vsz, uint64(e.Size))
+		case 1:
+			out = append(out, 1, uint64(e.Size))
+			encElems(e.Group)
+		default:
+			out = append(out, 2, e.SlabID.IndexAsUint64(), uint64(e.Size))
+			encElems(e.Group)
+		}
+	}
+
+	var rec func(slab MapSlab, depth int) error
+	rec = func(slab MapSlab, depth int) error {
+		if depth > 64 {
+			return fmt.Errorf("verif: map slab tree deeper than 64")
+		}
+		switch s := slab.(type) {
+		case *MapDataSlab:
+			out = append(out, 0, s.header.slabID.IndexAsUint64(), uint64(s.header.size), uint64(s.header.firstKey),
+				s.next.IndexAsUint64())
+			if s.anySize || s.collisionGroup || s.inlined {
+				return fmt.Errorf("verif: tree data slab %s has anySize=%t collisionGroup=%t inlined=%t",
+					s.header.slabID, s.anySize, s.collisionGroup, s.inlined)
+			}
+			if (s.extraData != nil) != (depth == 0) {
+				return fmt.Errorf("verif: data slab %s at depth %d has extraData=%t", s.header.slabID, depth, s.extraData != nil)
+			}
+			g, err := verifDumpElements(m.Storage, s.elements, 0)
+			if err != nil {
+				return err
+			}
+			encElems(g)
+		case *MapMetaDataSlab:
+			out = append(out, 1, s.header.slabID.IndexAsUint64(), uint64(s.header.size), uint64(s.header.firstKey),
+				uint64(len(s.childrenHeaders)))
+			if (s.extraData != nil) != (depth == 0) {
+				return fmt.Errorf("verif: index slab %s at depth %d has extraData=%t", s.header.slabID, depth, s.extraData != nil)
+			}
+			for _, h := range s.childrenHeaders {
+				out = append(out, h.slabID.IndexAsUint64(), uint64(h.size), uint64(h.firstKey))
+			}
+			for _, h := range s.childrenHeaders {
+				child, err := getMapSlab(m.Storage, h.slabID)
+				if err != nil {
+					return err
+				}
+				if err := rec(child, depth+1); err != nil {
+					return err
+				}
+			}
+		default:
+			return fmt.Errorf("verif: unexpected map slab type %T", slab)
+		}
+		return nil
+	}
+	err := rec(m.root, 0)
+	return out, err
+}
+
+// VerifMapRootHeader returns (slab index, cached size, cached firstKey, extra-data count) of the root slab.
+func VerifMapRootHeader(m *OrderedMap) [4]uint64 {
+	h := m.root.Header()
+	var count uint64
+	if ed := m.root.ExtraData(); ed != nil {
+		count = ed.Count
+	}
+	return [4]uint64{h.slabID.IndexAsUint64(), uint64(h.size), uint64(h.firstKey), count}
+}
+
+// VerifMapTreeShape returns the height of the slab tree (1 = a single data slab), the number of data
+// slabs, of index slabs and of external collision-group slabs, and the identifiers of all of them.
+func VerifMapTreeShape(m *OrderedMap) (height, leaves, index, external int, ids []SlabID, err error) {
+	var rec func(slab MapSlab, depth int) error
+	rec = func(slab MapSlab, depth int) error {
+		if depth > 64 {
+			return fmt.Errorf("verif: map slab tree deeper than 64")
+		}
+		if depth+1 > height {
+			height = depth + 1
+		}
+		ids = append(ids, slab.SlabID())
+		switch s := slab.(type) {
+		case *MapDataSlab:
+			leaves++
+			if he, ok := s.elements.(*hkeyElements); ok {
+				for _, el := range he.elems {
+					if x, ok := el.(*externalCollisionGroup); ok {
+						external++
+						ids = append(ids, x.slabID)
+					}
+				}
+			}
+		case *MapMetaDataSlab:
+			index++
+			for _, h := range s.childrenHeaders {
+				child, err := getMapSlab(m.Storage, h.slabID)
+				if err != nil {
+					return err
+				}
+				if err := rec(child, depth+1); err != nil {
+					return err
+				}
+			}
+		}
+		return nil
+	}
+	err = rec(m.root, 0)
+	return
+}
